@@ -329,6 +329,161 @@ up among the (normalised on write) keys -/
 def memIsFile (files : List Path) (p : Path) : Bool :=
   (files.map (normalize false)).contains (normalize false p)
 
+/-! ### generate_require (convert_require) -/
+
+/-- pathdiff 0.2.3 `diff_paths`, the component loop (`comps` in push order) -/
+def diffLoop : Path → Path → List Comp → Option Path
+  | [], [], comps => some comps
+  | a :: as, [], comps => some (comps ++ a :: as)
+  | [], _ :: bs, comps => diffLoop [] bs (comps ++ [.parent])
+  | a :: as, b :: bs, comps =>
+    if comps.isEmpty && a == b then diffLoop as bs comps
+    else if b == .cur then diffLoop as bs (comps ++ [a])
+    else if b == .parent then none
+    else some (comps ++ [.parent] ++ bs.map (fun _ => .parent) ++ a :: as)
+
+def diffPaths (path base : Path) : Option Path :=
+  if hasRoot path != hasRoot base then (if hasRoot path then some path else none)
+  else (diffLoop path base []).map reparse
+
+def startsDot (p : Path) : Bool := p.head? == some .cur || p.head? == some .parent
+
+/-- path_utils.rs: get_relative_path with `use_current_dir_prefix = true` -/
+def getRelativePath (requirePath sourcePath : Path) : Option Path :=
+  let sp := relParent sourcePath
+  if hasRoot requirePath && !hasRoot sp then none
+  else (diffPaths requirePath sp).map fun path =>
+    normalize true (if !startsDot path then push [.cur] path else path)
+
+/-- `set_extension("")` -/
+def dropExtension (p : Path) : Path :=
+  match fileName p with
+  | none => p
+  | some n => p.dropLast ++ [.normal (fileStem n)]
+
+/-- common tail of both `generate_require`s: drop the module folder file name or the Lua extension -/
+def stripForRequire (folder : Name) (g : Path) : Path :=
+  if isModuleFolderName folder g then pop g
+  else if isLuaExt (pathExtension g) then dropExtension g
+  else g
+
+/-- path_utils.rs: write_require_path -/
+def writeRequirePath (p : Path) : List Char :=
+  p.foldl (fun (result : List Char) c =>
+    let result := if !(result.isEmpty || result.getLast? == some '/') then result ++ ['/'] else result
+    match c with
+    | .cur => result ++ ['.']
+    | .parent => result ++ ['.', '.']
+    | .normal n => result ++ n
+    | .root => if result.isEmpty then result ++ ['/'] else result) []
+
+/-- the alias whose (normalised, project-relative) location is the longest prefix of the
+required file; among equally long ones the last in iteration order (`sort_by_cached_key` is
+stable, `next_back`) — the real iteration order of a `HashMap` is unspecified -/
+def bestAlias (aliases : List (Name × Path)) (proj nrp : Path) : Option (Name × Path) :=
+  let cands := (aliases.map fun (n, a) => (n, normalize false (push proj a))).filter
+    fun (_, ap) => ap.isPrefixOf nrp
+  cands.foldl (fun best c =>
+    match best with
+    | none => some c
+    | some b => if c.2.length >= b.2.length then some c else some b) none
+
+def aliasPath (alias : Name × Path) (nrp : Path) : Path :=
+  push (components alias.1) (nrp.drop alias.2.length)
+
+/-- PathRequireMode::generate_require (the string written as the new argument) -/
+def generateRequirePath (m : PathMode) (proj requirePath current : Path) : List Char :=
+  let source := normalize false current
+  let g :=
+    if isRequireRelative requirePath then requirePath
+    else
+      let nrp := normalize false requirePath
+      match bestAlias m.sources proj nrp with
+      | some al => aliasPath al nrp
+      | none =>
+        match getRelativePath nrp source with
+        | some rel => if !startsDot rel then push [.cur] rel else rel
+        | none => nrp
+  writeRequirePath (stripForRequire m.folder g)
+
+/-- LuauRequireMode::generate_require -/
+def generateRequireLuau (m : LuauMode) (proj requirePath current : Path) : List Char :=
+  let source := normalize false current
+  let g :=
+    if isRequireRelative requirePath then
+      if isModuleFolderName initName source then
+        let n := requirePath.length - (if isModuleFolderName initName requirePath then 1 else 0)
+        let pc := requirePath.take n
+        reparse (match pc with
+          | .cur :: t => .normal selfName :: t
+          | .parent :: .parent :: t => .parent :: t
+          | .parent :: t => .cur :: t
+          | _ => pc)
+      else requirePath
+    else
+      let nrp := normalize false requirePath
+      match bestAlias m.aliases proj nrp with
+      | some al => aliasPath al nrp
+      | none =>
+        match getRelativePath nrp source with
+        | some rel =>
+          if isModuleFolderName initName source then
+            if rel.head? == some .cur then push [.normal selfName] (rel.drop 1)
+            else if [Comp.parent, Comp.parent].isPrefixOf rel then reparse (rel.drop 1)
+            else if rel.head? == some .parent then push [.cur] (rel.drop 1)
+            else rel
+          else if !startsDot rel then push [.cur] rel else rel
+        | none => nrp
+  writeRequirePath (stripForRequire initName g)
+
+inductive Mode where
+  | path (m : PathMode)
+  | luau (m : LuauMode)
+
+def Mode.find (md : Mode) (proj : Path) (isFile : Path → Bool) (req source : Path) : Except FindErr Path :=
+  match md with
+  | .path m => pathLocatorFind m proj isFile req source
+  | .luau m => luauLocatorFind m proj isFile req source
+
+def Mode.generate (md : Mode) (proj requirePath current : Path) : List Char :=
+  match md with
+  | .path m => generateRequirePath m proj requirePath current
+  | .luau m => generateRequireLuau m proj requirePath current
+
+/-- match_require.rs: match_path_require_call — the string literal of a require call is
+normalised (keeping a leading `.`) before any locator sees it -/
+def matchPathRequireCall (literal : Path) : Path := normalize true literal
+
+/-- `RequireMode::find_require` on a call `require("<literal>")` -/
+def Mode.findCall (md : Mode) (proj : Path) (isFile : Path → Bool) (literal source : Path) :
+    Except FindErr Path :=
+  md.find proj isFile (matchPathRequireCall literal) source
+
+/-- convert_require/mod.rs: try_require_conversion — the new argument text, if the require
+resolves under the current mode -/
+def convertRequire (current target : Mode) (proj : Path) (isFile : Path → Bool) (req source : Path) :
+    Option (List Char) :=
+  match current.findCall proj isFile req source with
+  | .ok found => some (target.generate proj found source)
+  | .error _ => none
+
+/-- hypothesis of `convert_keeps_target_partial`: the resolved file path is not itself
+spelled relative to the working directory with a leading `.`/`..` (F28) -/
+def HConv (found : Path) : Bool := !isRequireRelative found
+
+/-- hypothesis of `luau_head_module_partial` (F25): the requiring file is named below a named
+directory (`…/dir/init.luau`), so that the parent of its directory can be taken lexically -/
+def HA (source : Path) : Bool :=
+  match source.reverse with
+  | .normal _ :: .normal _ :: _ => true
+  | _ => false
+
+/-- the requiring file path ends in a name -/
+def endsInName (source : Path) : Bool :=
+  match source.reverse with
+  | .normal _ :: _ => true
+  | _ => false
+
 /-! ### lexical denotation (used by the theorems only)
 
 Where a path leads from a working directory `cwd` (names from the root, innermost first) in
